@@ -818,6 +818,197 @@ static void pool_run(uint64_t idx)
 }
 VF_SUITE(pools, pool_count, pool_run)
 
+// ---- histories in which re-initialisation is an ordinary operation: igris::pool::init / pool_init+pool_engage on a
+// pool that has already been used (same zone, another zone, another cell size / capacity), followed by continued use.
+// Reference: all blocks of the previous life become invalid; the pool then owns exactly the new zone.
+// (static_object_pool has no reset/clear member and the heap has no public re-init entry point: nothing to drive there.)
+struct RGeom
+{
+    size_t cell, align, cap;
+};
+static const RGeom RGEOM[3] = {{8, 8, 1}, {16, 16, 3}, {40, 8, 2}};
+enum
+{
+    RH_GET,
+    RH_PUT_NEWEST,
+    RH_PUT_OLDEST,
+    RH_INIT_SAME_ZONE,
+    RH_INIT_OTHER_ZONE,
+    RH_INIT_GEOM0,
+    RH_INIT_GEOM1,
+    RH_INIT_GEOM2,
+    RH_N
+};
+static const char *RHNAME[RH_N] = {"get", "put(newest)", "put(oldest)", "init(same zone)", "init(other zone)", "init(8x1)", "init(16x3)", "init(40x2)"};
+template <class P> struct PoolHist
+{
+    P pool;
+    std::unique_ptr<AlignedZone> zone;
+    PoolModel m;
+    vf::Rng rg;
+    explicit PoolHist(const RGeom &g, uint64_t salt) : m{nullptr, g.cell, g.cap, P::name(), g.align}, rg(vf::seed(), 0x9004, salt)
+    {
+        zone.reset(new AlignedZone(g.align, g.cell * g.cap));
+        m.zone = zone->p;
+        pool.init(zone->p, g.cell * g.cap, g.cell);
+        m.trace = "init(" + std::to_string(g.cell) + "x" + std::to_string(g.cap) + ")";
+        counts("after init");
+    }
+    void counts(const char *when)
+    {
+        size_t a = pool.avail();
+        if (a != m.cap - m.live.size())
+            m.bad("free-count", "%s: avail()=%zu, capacity-live=%zu", when, a, m.cap - m.live.size());
+        VF_OK("pool: free count == capacity - live");
+        pool.extra(m);
+        m.verify_all(when);
+    }
+    void get()
+    {
+        m.note("a", (long)m.live.size());
+        m.on_alloc(pool.get());
+        counts("after get");
+    }
+    void put(int flavour)
+    {
+        if (m.live.empty())
+            return;
+        char *p = m.take(flavour, rg);
+        m.note("f", (long)(p - m.zone) / (long)m.elemsz);
+        pool.put(p);
+        counts("after put");
+    }
+    // re-initialise the used pool; other_zone: the previous zone is released first (a stale link into it is a
+    // use-after-free for ASan), same zone: the cells are carved again in place
+    void reinit(const RGeom &g, bool other_zone)
+    {
+        m.trace += std::string(" init(") + std::to_string(g.cell) + "x" + std::to_string(g.cap) + (other_zone ? ",new zone)" : ",same zone)");
+        if (vf::verbose())
+            printf("  re-init %zux%zu %s\n", g.cell, g.cap, other_zone ? "new zone" : "same zone");
+        if (other_zone)
+        {
+            zone.reset();
+            zone.reset(new AlignedZone(g.align, g.cell * g.cap));
+        }
+        m.live.clear();
+        m.order.clear();
+        m.zone = zone->p;
+        m.elemsz = g.cell;
+        m.cap = g.cap;
+        m.zalign = g.align;
+        pool.init(zone->p, g.cell * g.cap, g.cell);
+        counts("after re-init");
+        VF_OK("pool: re-init of a used pool -> exactly the new zone's cells are free");
+    }
+    void op(int o)
+    {
+        switch (o)
+        {
+        case RH_GET:
+            get();
+            break;
+        case RH_PUT_NEWEST:
+            put(0);
+            break;
+        case RH_PUT_OLDEST:
+            put(1);
+            break;
+        case RH_INIT_SAME_ZONE:
+            reinit(RGeom{m.elemsz, m.zalign, m.cap}, false);
+            break;
+        case RH_INIT_OTHER_ZONE:
+            reinit(RGeom{m.elemsz, m.zalign, m.cap}, true);
+            break;
+        default:
+            reinit(RGEOM[o - RH_INIT_GEOM0], true);
+        }
+    }
+    // continued use: exactly capacity blocks, then null; give everything back
+    void finish()
+    {
+        while (m.live.size() < m.cap)
+            get();
+        get();
+        get();
+        VF_OK("pool: after re-init exactly capacity blocks of the new zone, then null");
+        while (!m.live.empty())
+            put(2);
+    }
+};
+static int rhist_len() { return vf::thorough() ? 7 : 6; }
+template <class P> static uint64_t rhist_case(int start, int a, int b, uint64_t idx)
+{
+    char cls[80];
+    snprintf(cls, sizeof cls, "%s:reinit-history", P::name());
+    vf::cls(cls);
+    int rest = rhist_len() - 2;
+    uint64_t total = 1;
+    for (int i = 0; i < rest; i++)
+        total *= RH_N;
+    for (uint64_t h = 0; h < total; h++)
+    {
+        PoolHist<P> t(RGEOM[start], idx);
+        t.op(a);
+        t.op(b);
+        uint64_t x = h;
+        for (int i = 0; i < rest; i++, x /= RH_N)
+            t.op((int)(x % RH_N));
+        t.finish();
+        if (h == 1234 && idx == 77 && vf::want_sample())
+            vf::sample("%s re-init history: %s", P::name(), t.m.trace.c_str());
+    }
+    return total;
+}
+static uint64_t rhist_count() { return 2ull * 3 * RH_N * RH_N; }
+static void rhist_run(uint64_t idx)
+{
+    int api = idx % 2, start = (idx / 2) % 3, a = (idx / 6) % RH_N, b = (idx / 6 / RH_N) % RH_N;
+    uint64_t n = api == 0 ? rhist_case<CPool>(start, a, b, idx) : rhist_case<CxxPool>(start, a, b, idx);
+    vf::count_bulk(n, n);
+    VF_OK("pool: every short history over get/put/re-init (same zone, other zone, other geometry), then fill and drain");
+}
+VF_SUITE(pool_reinit_history, rhist_count, rhist_run)
+
+// random long histories with re-init to any geometry of the grid
+template <class P> static void rrand_case(uint64_t idx)
+{
+    char cls[80];
+    snprintf(cls, sizeof cls, "%s:reinit-random", P::name());
+    vf::cls(cls);
+    vf::Rng rg(vf::seed(), 0x9005, idx);
+    PoolHist<P> t(RGEOM[idx % 3], idx);
+    uint64_t h = idx % 3;
+    for (int step = 0; step < 300; step++)
+    {
+        int r = (int)rg.below(100);
+        if (r < 45)
+            t.get();
+        else if (r < 85)
+            t.put((int)rg.below(3));
+        else if (r < 90)
+            t.op(RH_INIT_SAME_ZONE);
+        else
+        {
+            const PGrid &g = PGRID[rg.below(NPGRID)];
+            t.reinit(RGeom{g.cell, g.align, 1 + (size_t)rg.below(8)}, true);
+        }
+        h = vf::mix(h, r);
+        if (t.m.trace.size() > 600)
+            t.m.trace.erase(0, t.m.trace.size() - 450);
+    }
+    t.finish();
+    vf::count_case(vf::mix(h, P::name()[0]), true);
+}
+static uint64_t rrand_count() { return vf::thorough() ? 20000 : 300; }
+static void rrand_run(uint64_t idx)
+{
+    if (idx & 1)
+        rrand_case<CxxPool>(idx);
+    else
+        rrand_case<CPool>(idx);
+}
+VF_SUITE(pool_reinit_random, rrand_count, rrand_run)
+
 // ---- static_object_pool<T, N> with lifetime-tracking elements
 struct Small // sizeof == sizeof(slist_head)
 {
@@ -1124,6 +1315,8 @@ extern "C" void vf_setup()
           "static_object_pool family: avail == capacity - live after every op", "static_object_pool family: every live object keeps its fill pattern over its full size",
           "static_object_pool family: one constructor call per create, one destructor call per destroy", "static_object_pool family: exhausted pool answers null",
           "static_object_pool family: object inside storage, aligned for T and for the link, disjoint over sizeof(T)",
-          "static_object_pool family: exactly capacity objects, then null", "static_object_pool family: after destroying all, capacity objects can be created again"})
+          "static_object_pool family: exactly capacity objects, then null", "static_object_pool family: after destroying all, capacity objects can be created again",
+          "pool: re-init of a used pool -> exactly the new zone's cells are free", "pool: after re-init exactly capacity blocks of the new zone, then null",
+          "pool: every short history over get/put/re-init (same zone, other zone, other geometry), then fill and drain"})
         vf::require(c);
 }
